@@ -373,6 +373,6 @@ def run(ctx):
     run_r8(ctx, r8)
     from .c14 import run_r3 as c14_r3
     r7 = ctx.rule("C11-R7", "the sink calls are bracketed by the panicked flag (shared with C14-R3)", floor=2)
-    c14_r3(ctx, r7)
+    c14_r3(ctx, r7, writer_only=True)
     ctx.assume("canonical decimal text is itoap's contract; short writes / Interrupted are handled by std's Write::write_all")
     return "other", "ordering, pairing and linear-use facts of the writer's six methods decided on all paths", {}
